@@ -37,6 +37,6 @@ CONFIG = {
         "the property predicate compares the received bytes themselves",
     ],
     "timeout": {"quick": 900, "thorough": 3000},
-    "level_text": "Lean theorems over a model of both stdio paths (Model/Stdio.lean): for every sequence of writes on stdout and stderr, every re-chunking the pipe/bufio reader may deliver (pieces of 1..1024 bytes), and every interleaving chosen by StreamStdio's select, the bytes delivered to SyncStdout (resp. SyncStderr) are exactly the concatenation of what was written to stdout (resp. stderr) \u2014 no loss, duplication, reordering or crossing (per_stream_exact_grpc / _netrpc), and data written before the host attaches is delivered first (before_attach_retained_*); output written after an idle period of any length is still delivered as long as the connection is alive, because the stdio stream's context is the client's done-context without a deadline (late_output_delivered_grpc, per_stream_exact_grpc_timed; witness stream_deadline_witness: a 5 s timeout context drops what is written at 6.5 s); eight witness theorems show each extracted fact (exact slice sent, channel tags, client mapping, skip-empty test, net/rpc stream indices on both sides) is necessary. Facts are traced by data flow from os.Stdout to the sync writer on every run; ~71 real plugin sessions per run (5 of them with output after a 6.5 s idle period) (netrpc, grpc, grpc+mux, each with and without AutoMTLS) emit ~1400 writes of boundary sizes with pre-attach bursts and are compared byte for byte. Fifth round: fact clientKeepalive = none (client keep-alive pings against gRPC's default server enforcement recycle the transport and the stdio stream dies with it: client_keepalive_witness) and C11.second-conn (a host attaching after a first connection came and went; this found and now guards the repaired defect D13; the net/rpc server's two-step stdio shape — one reader per server, one copier per connection — is what the extractor reads). Several host connections in the life of one net/rpc plugin: Model/StdioConn.lean (connect / drop / write / take events), nothing_lost_across_connections for every history (invariant: nothing written to a dead connection's stream; taken ++ pending = written), fact copierEndsWithConn, witness stale_copier_witness = the former defect D13.",
+    "level_text": "Lean theorems over a model of both stdio paths (Model/Stdio.lean): for every sequence of writes on stdout and stderr, every re-chunking the pipe/bufio reader may deliver (pieces of 1..1024 bytes), and every interleaving chosen by StreamStdio's select, the bytes delivered to SyncStdout (resp. SyncStderr) are exactly the concatenation of what was written to stdout (resp. stderr) \u2014 no loss, duplication, reordering or crossing (per_stream_exact_grpc / _netrpc), and data written before the host attaches is delivered first (before_attach_retained_*); output written after an idle period of any length is still delivered as long as the connection is alive, because the stdio stream's context is the client's done-context without a deadline (late_output_delivered_grpc, per_stream_exact_grpc_timed; witness stream_deadline_witness: a 5 s timeout context drops what is written at 6.5 s); eight witness theorems show each extracted fact (exact slice sent, channel tags, client mapping, skip-empty test, net/rpc stream indices on both sides) is necessary. Facts are traced by data flow from os.Stdout to the sync writer on every run; ~71 real plugin sessions per run (5 of them with output after a 6.5 s idle period) (netrpc, grpc, grpc+mux, each with and without AutoMTLS) emit ~1400 writes of boundary sizes with pre-attach bursts and are compared byte for byte. Fifth round: fact clientKeepalive = none (client keep-alive pings against gRPC's default server enforcement recycle the transport and the stdio stream dies with it: client_keepalive_witness) and C11.second-conn (a host attaching after a first connection came and went; this found and now guards the repaired defect D13; the net/rpc server's two-step stdio shape — one reader per server, one copier per connection — is what the extractor reads). Several host connections in the life of one net/rpc plugin: Model/StdioConn.lean (connect / drop / write / take events), nothing_lost_across_connections for every history (invariant: nothing written to a dead connection's stream; taken ++ pending = written), fact copierEndsWithConn, witness stale_copier_witness = the former defect D13. Eighth round: the stdio copiers set no write deadlines, so a slow sync writer is back-pressure and loses nothing (Hygiene.noWriteDeadlines; slow_writer_loses_nothing, write_deadline_witness).",
     "level_note": "Partial: in-order exactly-once delivery of messages on one gRPC stream / bytes on one yamux stream, and the OS pipe, are assumed (the model's transport is the identity). Payloads are described by generator specs (kind:seed:len) shared by Go and Lean rather than hex, because they reach megabytes.",
 }
